@@ -234,6 +234,8 @@ def main():  # noqa: PLR0912, PLR0915
             path = write_replay(prop, r["contract"], x)
             if x.get("replayed"):
                 violations.append((f"{r['contract']}: {x['obligation']}: {x['replayed']}"[:600], path, ""))
+            elif x.get("abstraction_only"):
+                undecided.append(f"{r['contract']}: obligation {x['obligation']}: the two sides were summarised by different loop abstractions (not recognised as the same loop): proof failure, no counterexample")
             elif baseline_has(prop, r["contract"], x["obligation"]):
                 violations.append((f"{r['contract']}: obligation {x['obligation']} ({x['note']}) was discharged on the reference tree and now fails", path, " no-failing-input-found"))
             else:
